@@ -335,6 +335,56 @@ def run(ctx):
         if bad and reported < 14 and bad[:30] not in seen:
             seen.add(bad[:30]); reported += 1
             ctx.violation('independent dissector: ' + bad, '=== replay\n' + '\n'.join(lines) + '\n--- ' + bad + '\n--- C++ output\n' + '\n'.join(l[:300] for l in lh[-2:]) + '\n')
+    # (8) hand-built IPv4 fragments (MF set or a fragment offset) in front of a transport layer: the protocol field still names it;
+    #     IPv6 with extension headers and nothing behind them: the payload length covers the extension headers, last next header 59
+    fs = []
+    for i in range(60 if quick else 900):
+        inner_, proto_ = rng.choice([('UDP', 17), ('TCP', 6), ('ICMP', 1)])
+        fl, off = rng.choice([(1, 0), (1, 0), (0, 185), (1, 370), (3, 0)])
+        lines = ['new IP', 'set 0 src_addr 167772161', 'set 0 dst_addr 167772162', 'set 0 flags %d' % fl, 'set 0 fragment_offset %d' % off,
+                 'push ' + inner_, 'raw x' + bytes(rng.randrange(256) for _ in range(rng.choice([8, 24]))).hex(), 'ser']
+        fs.append(('f%d' % i, lines, ('frag', proto_, fl, off)))
+    for i in range(60 if quick else 900):
+        hdrs = [(rng.choice([0, 43, 60]) if j else 0, bytes(rng.randrange(256) for _ in range(rng.choice([0, 6, 14])))) for j in range(rng.randrange(1, 4))]
+        hdrs = [(t if (t != 0 or j == 0) else 60, d) for j, (t, d) in enumerate(hdrs)]
+        lines = ['new IPv6'] + ['ext6 0 %d x%s' % (t, d.hex()) for t, d in hdrs] + ['ser']
+        fs.append(('g%d' % i, lines, ('ext', hdrs)))
+    fh = C.run_harness('h_pkt', [(sid, lines) for sid, lines, _ in fs])
+    ctx.cov['evaluations'] += len(fs)
+    for sid, lines, what in fs:
+        lh = [l for l in fh.get(sid, []) if not l.startswith('!~')]
+        bad = None
+        if not lh or not lh[-1].startswith('S '):
+            bad = '%s: %s' % (lines[:6], (lh[-1] if lh else '<none>')[:80])
+        else:
+            y = bytes.fromhex(lh[-1].split()[2][1:])
+            if what[0] == 'frag':
+                _, proto_, fl, off = what
+                fo = _st.unpack('>H', y[6:8])[0]
+                if y[9] != proto_:
+                    bad = 'IPv4 fragment (flags %d, offset %d) built in front of protocol %d goes out with protocol field %d' % (fl, off, proto_, y[9])
+                elif (fo >> 13, fo & 0x1fff) != (fl, off):
+                    bad = 'IPv4 flags / fragment offset on the wire (%d, %d), set (%d, %d)' % (fo >> 13, fo & 0x1fff, fl, off)
+                elif _st.unpack('>H', y[2:4])[0] != len(y) or D.csum16(y[:20]) != 0xffff:
+                    bad = 'IPv4 fragment: total length / header checksum wrong'
+                else:
+                    nontriv.add(tuple(lines))
+            else:
+                hdrs = what[1]
+                extlen = sum(len(d) + 2 + ((-(len(d) + 2)) % 8) for _, d in hdrs)
+                plen = _st.unpack('>H', y[4:6])[0]
+                chain, off = [y[6]], 40
+                while off + 2 <= len(y) and len(chain) <= len(hdrs):
+                    chain.append(y[off]); off += 8 * (y[off + 1] + 1)
+                if plen != len(y) - 40 or plen != extlen:
+                    bad = 'IPv6 with %d extension headers and no upper layer: payload length field %d, octets behind the fixed header %d (extension headers take %d)' % (len(hdrs), plen, len(y) - 40, extlen)
+                elif chain != [t for t, _ in hdrs] + [59]:
+                    bad = 'IPv6 next-header chain on the wire %s, headers added %s (+ 59, no next header)' % (chain, [t for t, _ in hdrs])
+                else:
+                    nontriv.add(tuple(lines))
+        if bad and reported < 16 and bad[:30] not in seen:
+            seen.add(bad[:30]); reported += 1
+            ctx.violation('independent dissector: ' + bad, '=== replay\n' + '\n'.join(lines) + '\n--- ' + bad + '\n--- C++ output\n' + '\n'.join(l[:300] for l in lh[-2:]) + '\n')
     ctx.cov['distinct_nontrivial'] = len(nontriv)
     ctx.cov['traces_validated_against_impl'] = len(sums)
     ctx.cov['rule'] = ('(1) byte strings aimed at the folding boundaries (all-ones, alternating, odd lengths) through Utils::sum_range / crc32 against the model and independent references; '
